@@ -2,8 +2,10 @@ package http
 
 import (
 	"errors"
+	"github.com/klauspost/compress/gzip"
 	"io"
 	nethttp "net/http"
+	"net/url"
 
 	"github.com/ozontech/file.d/decoder"
 	"github.com/ozontech/file.d/pipeline"
@@ -37,6 +39,7 @@ var errVerifRead = errors.New("verif: transport error")
 // the transport: arbitrary chunking of the body, including empty reads,
 // (n>0, EOF) on the last chunk, and a non-EOF error at a chosen position
 type verifReader struct {
+	failErr   error // nil: errVerifRead
 	body      []byte
 	pos       int
 	failAt    int
@@ -48,6 +51,9 @@ type verifReader struct {
 
 func (r *verifReader) Read(b []byte) (int, error) {
 	if r.failAt >= 0 && r.pos >= r.failAt {
+		if r.failErr != nil {
+			return 0, r.failErr
+		}
 		return 0, errVerifRead
 	}
 	rem := len(r.body) - r.pos
@@ -211,9 +217,25 @@ func VerifH_C11_okAfterAll() {
 	ctl := &verifCtl{}
 	p := verifNewPlugin(ctl, bufSize, 1)
 	rd := &verifReader{body: body, failAt: failAt}
+	if failAt >= 0 && vf.Choose("fault-kind", 2) == 1 {
+		rd.failErr = io.ErrUnexpectedEOF // what net/http reports for a body shorter than announced
+	}
 	w := &verifRW{h: nethttp.Header{}, inAtBody: -1, ctl: ctl}
 	req := &nethttp.Request{Method: "POST", Header: nethttp.Header{}, Body: io.NopCloser(rd)}
-	p.serveBulk(w, req, nil)
+	switch vf.Choose("entry", 3) {
+	case 0:
+		p.serveBulk(w, req, nil)
+	case 1: // through the router, plain mode
+		req.URL = &url.URL{Path: "/"}
+		req.RequestURI = "/"
+		p.ServeHTTP(w, req)
+	case 2: // through the router, elasticsearch emulation, bulk request with a query string
+		p.config.EmulateMode_ = EmulateModeElasticSearch
+		req.URL = &url.URL{Path: "/_bulk", RawQuery: "filter_path=errors"}
+		req.RequestURI = "/_bulk?filter_path=errors"
+		p.ServeHTTP(w, req)
+		vf.Reach("elasticsearch-bulk-route")
+	}
 	if vf.Param("twin", 0) == 1 {
 		vf.Assert(w.status != 200, "status")
 		return
@@ -365,3 +387,76 @@ func VerifH_C11_afterAbort() {
 		vf.Reach("abort-with-pending-partial-line")
 	}
 }
+
+// C11.H5: a gzip body (two concatenated members, RFC 1952, cut inside a line) delivers exactly the
+// lines of the decompressed stream, and the pooled decompressor is handed to one request at a time.
+func VerifH_C11_gzipBody() {
+	body := append(append([]byte(nil), verifGzipMember1...), verifGzipMember2...)
+	want := [][]byte{[]byte(`{"a":"1"}`), []byte(`{"b":"2"}`), []byte(`{"c":"3"}`), []byte(`{"d":"4"}`)}
+	ctl := &verifCtl{}
+	p := verifNewPlugin(ctl, 16, 2)
+	rounds := 1 + vf.Choose("requests", 2)
+	for r := 0; r < rounds; r++ {
+		ctl.calls = nil
+		rd := &verifFixedReader{body: body, step: 7 + 6*vf.Choose("chunk", 3)}
+		w := &verifRW{h: nethttp.Header{}, inAtBody: -1, ctl: ctl}
+		req := &nethttp.Request{Method: "POST", Header: nethttp.Header{"Content-Encoding": []string{"gzip"}}, Body: io.NopCloser(rd)}
+		p.serveBulk(w, req, nil)
+		if vf.Param("twin", 0) == 1 {
+			vf.Assert(w.status != 200, "status")
+			return
+		}
+		vf.Assert(w.status == 200, "gzip-body-accepted")
+		var datas [][]byte
+		for _, c := range ctl.calls {
+			datas = append(datas, c.data)
+		}
+		got := verifNonEmpty(datas)
+		ok := len(got) == len(want)
+		if ok {
+			for i := range want {
+				if string(got[i]) != string(want[i]) {
+					ok = false
+				}
+			}
+		}
+		vf.Assert(ok, "gzip-lines-are-the-decompressed-lines")
+	}
+	if vf.Choose("then-a-body-that-is-not-gzip", 2) == 1 {
+		w := &verifRW{h: nethttp.Header{}, inAtBody: -1, ctl: ctl}
+		req := &nethttp.Request{Method: "POST", Header: nethttp.Header{"Content-Encoding": []string{"gzip"}}, Body: io.NopCloser(&verifFixedReader{body: []byte("{\"plain\":1}\n"), step: 8})}
+		p.serveBulk(w, req, nil)
+		vf.Assert(w.status == 400, "not-gzip-refused")
+		vf.Reach("bad-gzip-refused")
+	}
+	// the pool holds each decompressor once
+	a, _ := p.gzipReaderPool.Get().(*gzip.Reader)
+	b, _ := p.gzipReaderPool.Get().(*gzip.Reader)
+	vf.Assert(a == nil || a != b, "decompressor-pooled-once")
+	vf.Reach("gzip-served")
+}
+
+type verifFixedReader struct {
+	body []byte
+	pos  int
+	step int
+}
+
+func (r *verifFixedReader) Read(b []byte) (int, error) {
+	if r.pos >= len(r.body) {
+		return 0, io.EOF
+	}
+	n := r.step
+	if n > len(b) {
+		n = len(b)
+	}
+	if n > len(r.body)-r.pos {
+		n = len(r.body) - r.pos
+	}
+	copy(b, r.body[r.pos:r.pos+n])
+	r.pos += n
+	return n, nil
+}
+
+var verifGzipMember1 = []byte{0x1f, 0x8b, 0x08, 0x00, 0x00, 0x00, 0x00, 0x00, 0x02, 0x03, 0xab, 0x56, 0x4a, 0x54, 0xb2, 0x52, 0x32, 0x54, 0xaa, 0xe5, 0xaa, 0x56, 0x4a, 0x02, 0xb2, 0x8c, 0xc0, 0xac, 0x64, 0x25, 0x2b, 0x00, 0x38, 0xf6, 0xa8, 0x9c, 0x19, 0x00, 0x00, 0x00}
+var verifGzipMember2 = []byte{0x1f, 0x8b, 0x08, 0x00, 0x00, 0x00, 0x00, 0x00, 0x02, 0x03, 0x53, 0x32, 0x56, 0xaa, 0xe5, 0xaa, 0x56, 0x4a, 0x51, 0xb2, 0x52, 0x32, 0x01, 0xb2, 0x00, 0x6b, 0xd2, 0x46, 0x25, 0x0f, 0x00, 0x00, 0x00}
